@@ -576,8 +576,28 @@ fn main() {
             .collect();
         LAST_PANIC.with(|p| *p.borrow_mut() = slug);
     }));
-    for line in stdin.lock().lines() {
-        let line = line.unwrap();
+    // HISTORY of the thread: before the first request this thread has seen a build that fails in the parser, one that fails in
+    // the rule checker, one that fails in the regex compiler (oversized program), a panic caught inside the crate's code paths
+    // (a known one, if the tree still has it), a successful build, a match and a short walk. Whatever the crate remembers per
+    // thread or per process (a scratch buffer, a cache, a lazily initialised table) has been used and left behind by a failure
+    // when the requests are answered; the model has no such state, so a leftover shows as a disagreement
+    // (the oversized build costs about 50 ms: it is spent on batches, not on the single confirmation requests)
+    let lines: Vec<String> = stdin.lock().lines().map(|l| l.unwrap()).collect();
+    if std::env::var("WAXH_FRESH").is_err() && (lines.len() >= 8 || std::env::var("WAXH_HISTORY").is_ok()) {
+        let _ = catch_unwind(|| {
+            let _ = Glob::new("{");
+            let _ = Glob::new("a//b");
+            let _ = Glob::new("<a*:1000000>");
+            let _ = Glob::new("<a:0,2><b:1,>").map(|g| g.depth());
+            let _ = Glob::new("src/**/*.rs").map(|g| {
+                let _ = g.is_match("src/a/b.rs");
+                let _ = g.clone().partition();
+                let _ = g.walk(".").take(8).count();
+            });
+            let _ = wax::escape("a*b").len();
+        });
+    }
+    for line in lines {
         let mut it = line.split(' ');
         let cmd = it.next().unwrap_or("");
         let args: Vec<&str> = it.collect();
